@@ -8,7 +8,8 @@ from scene import fmt, dy
 DOC_MODEL = True     # every generated document also runs through the composed Coq model of the whole transform
 RULE = ('generated reference DAGs over 2-7 id-carrying sibling elements (rect / circle / ellipse / line / group containers), every '
         'relspec form (|h |H |v |V gaps, @loc with offsets, ~scalar, relative sizes wh="#id", surround / inside lists), the referenced '
-        'element\'s geometry spelled both ways (wh vs width/height, r vs wh, relative vs absolute position); every sibling order for n <= 5 '
+        'element\'s geometry spelled both ways (wh vs width/height, r vs wh, relative vs absolute position); one DAG in seven built around sizes '
+        '(wh / width / height / r) read from longhand targets that carry a size delta and are themselves placed by x / y references; every sibling order for n <= 5 '
         'and 40 random orders above; all orders must give identical geometry keyed by id (or all fail); documents with an unknown id, a '
         'reference cycle or a target without bounding box must fail in every order. non-trivial = distinct DAG with >= 1 reference')
 THEOREM_NOTES = ('Props/C10.v: retry_least, retry_order_independent (abstract loop over a monotone step), pass_only_shrinks (concrete pipeline model). '
@@ -23,7 +24,29 @@ def gen_dag(rng):
     n = rng.range(2, 7)
     els = []
     unsat = None
+    # one DAG in seven is about sizes read from a target that cannot have a box before it is placed: targets spelled in
+    # longhand (x / y references, width / height plus a delta), referrers that take their size from such a target
+    sizey = rng.chance(0.15)
     for i in range(n):
+        if sizey and i >= 1:
+            eid = 'e%d' % i
+            w = dy(rng, 1, 20, 4); h = dy(rng, 1, 20, 4)
+            longs = [e for e in els[1:] if e[1] == 'rect' and any(a == 'width' for a, _ in e[2])]
+            if longs and rng.chance(0.6):
+                t2 = rng.choice(longs)[0]
+                if rng.chance(0.3):
+                    els.append((eid, 'circle', [('id', eid), ('cxy', '%s %s' % (fmt(dy(rng, -20, 40)), fmt(dy(rng, -20, 40)))),
+                                                ('r', '#%s~%s' % (t2, rng.choice('wh')))], [t2]))
+                else:
+                    size = rng.choice([[('wh', '#%s%s' % (t2, rng.choice(['', ' 50%', ' 2'])))],
+                                       [('width', '#%s%s' % (t2, rng.choice(['', ' 50%', ' 1']))), ('height', '#%s~%s %d' % (t2, rng.choice('wh'), rng.range(0, 3)))]])
+                    els.append((eid, 'rect', [('id', eid), ('xy', '%s %s' % (fmt(dy(rng, -20, 40)), fmt(dy(rng, -20, 40))))] + size, [t2]))
+            else:
+                t = rng.choice(els)[0]; t2 = rng.choice(els)[0]
+                pos = [('x', '#%s%s' % (t, rng.choice(['~x2', '~cx', '@tr', '@l 1']))), ('y', '#%s%s' % (t2, rng.choice(['~y2', '~cy', '@b', '@t -1'])))]
+                size = [('width', fmt(w)), ('height', fmt(h))] + ([rng.choice([('dwh', '5 -2'), ('dw', '3'), ('dh', '2'), ('dwh', '150%')])] if rng.chance(0.8) else [])
+                els.append((eid, 'rect', [('id', eid)] + pos + size, [t, t2]))
+            continue
         eid = 'e%d' % i
         name = rng.choice(['rect', 'rect', 'rect', 'circle', 'ellipse'])
         deps = []
